@@ -27,6 +27,27 @@ class Participant(object):
         self.make = make
 
 
+class _Done(object):
+    done = True
+
+    def __init__(self, result):
+        self.result = result
+
+
+class Atomic(Participant):
+    """A plain (non-generator) request taking part in a schedule as a one-step participant:
+    it runs to completion at whichever yield point of the others the scheduler picks."""
+
+    def __init__(self, name, fn):
+        def make(t):
+            def gen():
+                yield _Done(fn(t))
+
+            return gen()
+
+        Participant.__init__(self, name, make)
+
+
 class Query(Participant):
     is_query = True
 
